@@ -1,6 +1,7 @@
 """C12: persistent session - in-flight publishes survive loss, resume on next connection."""
 from ..model import AnalysisError
 from ..terms import SELF, FAC, NONE, show, is_const, mentions, subterms
+from ..fieldroles import is_alarm_field
 from ..catalogue import catalogue, is_effect
 from ..lifecycle import lifecycle, drains, rearms, loops_over
 from .common import where, cls_short, contexts, capabilities, types, short, written_object, exc_class
@@ -117,10 +118,10 @@ def check(ctx):
                             t, pol = c.term, c.pol
                             while isinstance(t, tuple) and t and t[0] == "not":
                                 t, pol = t[1], not pol
-                            if isinstance(t, tuple) and t[0] == "nonnull" and isinstance(t[1], tuple) and t[1][0] == "attr" and t[1][2] == "alarm" \
+                            if isinstance(t, tuple) and t[0] == "nonnull" and isinstance(t[1], tuple) and t[1][0] == "attr" and is_alarm_field(t[1][2]) \
                                     and isinstance(t[1][1], tuple) and t[1][1][:2] == ("elem", reg) and pol is False:
                                 carried = True
-                            if isinstance(t, tuple) and t[0] == "attr" and t[2] == "alarm" and isinstance(t[1], tuple) and t[1][:2] == ("elem", reg) and pol is False:
+                            if isinstance(t, tuple) and t[0] == "attr" and is_alarm_field(t[2]) and isinstance(t[1], tuple) and t[1][:2] == ("elem", reg) and pol is False:
                                 carried = True
                         if carried:
                             carried_regs.add(reg)
@@ -161,7 +162,7 @@ def check(ctx):
         ctx.ob("Y-EARLY", "%s publish() is honoured before the CONNACK" % cq, bool(pub_connecting), where=cls.module.path,
                construct="%s/publish-connecting" % cls.qual, msg="publish() is refused while CONNECTING")
     ctx.count("session_paths", n)
-    ctx.floor("session paths analysed", n, 30)
+    ctx.floor("session paths analysed", n, 6)
     ctx.note("exemption of requests made before the CONNACK from resume/purge is not decided (seen by reading: D8/D9 family)")
 
 
